@@ -537,7 +537,7 @@ func (root *Root) resolveField(
 		result[field.key()] = t.Name()
 		return nil
 	case "__type":
-		if t.Name() == queryType {
+		if root.isQueryType(t, queryType) {
 			var fv interface{} // field value
 			var av *ArgValue
 
@@ -569,7 +569,7 @@ func (root *Root) resolveField(
 		ea = append(ea, resWarnp(field, "__type meta-field is only on the query object"))
 		return
 	case "__schema":
-		if t.Name() == queryType {
+		if root.isQueryType(t, queryType) {
 			var fv interface{} // field value
 
 			fv, ea2 = root.resolve(root, vars, field, root.uuSchemaType, depth)
@@ -657,6 +657,17 @@ func mergeValues(prev, next interface{}) interface{} {
 		}
 	}
 	return next
+}
+
+// isQueryType returns true if t is the query root type of the schema, the
+// type named by the schema block or else the one with the default name.
+func (root *Root) isQueryType(t Type, defaultName string) bool {
+	if root.schema != nil {
+		if fd := root.schema.fields.get(string(OpQuery)); fd != nil {
+			return fd.Type == t
+		}
+	}
+	return t.Name() == defaultName
 }
 
 func (root *Root) addError(f *Field, ea []error, err error) []error {
